@@ -2612,6 +2612,9 @@ int32 parseCertificateRequest(ssl_t *ssl,
             {
                 psFree(keySelect->caNames, ssl->hsPool);
                 psFree(keySelect->caNameLens, ssl->hsPool);
+                keySelect->caNames = NULL;
+                keySelect->caNameLens = NULL;
+                keySelect->nCas = 0;
                 ssl->err = SSL_ALERT_INTERNAL_ERROR;
                 return MATRIXSSL_ERROR;
             }
